@@ -155,9 +155,88 @@ def head(r):
     return r[0]
 
 
+def nodes(r):
+    if isinstance(r, list) and r and isinstance(r[0], str):
+        yield r
+        for x in r[1:]:
+            yield from nodes(x)
+
+
+def numval(r):
+    """numeric value of a symbol-free recipe or None"""
+    try:
+        return on.value(r, {}, 30)
+    except Exception:
+        return None
+
+
+def has_big_half_integer_gamma(rec):
+    """gamma / beta / lowergamma ... of a half-integer k/2 with |k| >= 21: gamma_multiple_2 multiplies in `int`"""
+    for n in nodes(rec):
+        if n[0] in ("gamma", "beta", "loggamma", "lowergamma", "uppergamma"):
+            for a in n[1:]:
+                if isinstance(a, list) and a and a[0] == "rational" and a[2] == 2 and abs(a[1]) >= 21:
+                    return True
+                if n[0] == "beta" and isinstance(a, list) and a and a[0] == "integer" and abs(a[1]) >= 10:
+                    return True
+    return False
+
+
+def m_acot_negative(case, v):
+    """KF-C08-01: acot of an exact negative real uses the (0, pi) convention, the numeric layer atan(1/x)"""
+    for n in nodes(case["e"]):
+        if n[0] == "acot" and not on.has_float(n[1]):
+            x = numval(n[1])
+            if x is not None and getattr(x, "imag", 0) == 0 and x.real < 0:
+                return True
+    return False
+
+
+C5 = 0.2078134688887267
+def m_inverse_table_c5(case, v):
+    """KF-C08-02: the inverse sine/cosine table maps sqrt(5-sqrt(5))/8 (the mis-scaled constant C5) to pi/5"""
+    for n in nodes(case["e"]):
+        if n[0] in ("asin", "acos", "asec", "acsc"):
+            x = numval(n[1])
+            if x is not None and getattr(x, "imag", 0) == 0 and x != 0:
+                a = abs(float(x.real))
+                if abs(a - C5) < 1e-9 or abs(1 / a - C5) < 1e-9:
+                    return True
+    return False
+
+
+def m_atan2_table_quadrant(case, v):
+    """KF-C08-03: atan2(y, x) whose quotient hits the tangent table ignores the quadrant unless both are Numbers"""
+    for n in nodes(case["e"]):
+        if n[0] == "atan2":
+            isnum = lambda a: a[0] in ("integer", "rational", "real_double")
+            if not (isnum(n[1]) and isnum(n[2])):
+                return True
+    return False
+
+
+def m_truncate_add_integer(case, v):
+    """KF-C08-04: truncate(n + y) is rewritten to n + truncate(y) (wrong when n + y and y have different signs)"""
+    for n in nodes(case["e"]):
+        if n[0] == "truncate" and isinstance(n[1], list) and n[1][0] in ("add", "sub", "add_vec"):
+            return True
+    return False
+
+
+def m_zeta_negative_a(case, v):
+    """KF-C08-05: zeta(s, a) with a negative integer a adds harmonic(-a, s) without the sign (-1)**(-s)"""
+    for n in nodes(case["e"]):
+        if n[0] == "zeta2" and n[2][0] == "integer" and n[2][1] < 0:
+            return True
+    return False
+
+
 class C08(ValueCheck):
     pid = "C08"
     timeout = 60.0
+    # a constructor may evaluate a float argument through an algebraically equal but numerically worse formula
+    # (lowergamma(1, x) -> 1 - exp(-x)); C08 is about the value, evaluator accuracy is C12's subject
+    float_rel_floor = 1e-9
     rule = ("one constructor call f(args) per case for every constructor the statement lists, with argument generators "
             "built to reach the automatic rewrites: rational multiples of pi with arbitrary shifts plus a symbolic rest, "
             "the radical pool (closed forms of trig values, the only way into the inverse lookup tables), exact numbers of "
@@ -179,6 +258,9 @@ class C08(ValueCheck):
     def judge(self, case):
         rec = case["e"]
         f = head(rec)
+        if self.tag_active("gamma_half_integer_int_overflow") and has_big_half_integer_gamma(rec):
+            self.skip("known:gamma_half_integer_int_overflow")
+            return
         real = f in REALONLY or self.has_realonly(rec)
         envs = case["renvs"] if real else case["envs"]
         margin = 1e-6 if real else None
@@ -204,6 +286,11 @@ class C08(ValueCheck):
             return
         got = B(r)
         self.cls("f:" + f)
+        if f == "beta" and got[0] == "Infty" and any(a[0] == "integer" and a[1] <= 0 for a in args):
+            # Gamma(x)Gamma(y)/Gamma(x+y) with a pole in the numerator: the library reports the pole, mpmath the
+            # limit of the ratio -- both conventions exist, not judged
+            self.skip("pole_ratio_ambiguous:beta")
+            return
         if got[0] in ("Infty", "NaN"):
             # accepted only where the reference is a pole / undefined at every point
             finite = [x for x in refs if not isinstance(x, Unjudgeable)]
@@ -242,6 +329,11 @@ class C08(ValueCheck):
                 return True
             return any(C08.has_realonly(x) for x in r[1:])
         return False
+
+
+C08.matchers = {"acot_negative": m_acot_negative, "inverse_table_c5": m_inverse_table_c5,
+                "atan2_table_quadrant": m_atan2_table_quadrant, "truncate_add_integer": m_truncate_add_integer,
+                "zeta_negative_a": m_zeta_negative_a}
 
 
 if __name__ == "__main__":
